@@ -323,10 +323,12 @@ func nativeAction(p *gen.Prog) *core.FuncAction {
 			case "loop":
 				return fail("RuntimeError: timeout")
 			case "emitBad":
+				// a native action's own error texts (kept apart from the interpreter's: a pattern may
+				// bind one and meet the other)
 				if len(op) > 1 && op[1] == "cycle" {
-					return fail("json: unsupported value: encountered a cycle via map[string]interface {}")
+					return fail("json: unsupported:cycle:native")
 				}
-				return fail("json: unsupported type: func(goja.FunctionCall) goja.Value")
+				return fail("json: unsupported:type:native")
 			}
 		}
 		switch p.Ret {
